@@ -513,6 +513,42 @@ impl<'a> Ev<'a> {
                 if let Some(f) = o.cases.first() {
                     self.bind_pat(f, v)
                 }
+                // the other alternatives bind the same names to the payloads of their own variants: the value keeps the first
+                // alternative's payload and lists the others under `also`, so that "the payload of variant V reaches …" can be
+                // asked for every alternative
+                let mut also: HashMap<String, Vec<Value>> = HashMap::new();
+                for c in o.cases.iter().skip(1) {
+                    self.env.push(HashMap::new());
+                    self.bind_pat(c, v);
+                    let scope = self.env.pop().unwrap_or_default();
+                    for (n, val) in scope {
+                        let inner = if val.get("k").and_then(|k| k.as_str()) == Some("var") { val.get("v").cloned().unwrap_or(Value::Null) } else { val };
+                        if inner.get("k").and_then(|k| k.as_str()) == Some("payload") {
+                            let mut d = json!({"variant": inner["variant"]});
+                            if let Some(p) = inner.get("pos") {
+                                d["pos"] = p.clone();
+                            }
+                            if let Some(p) = inner.get("field") {
+                                d["field"] = p.clone();
+                            }
+                            also.entry(n).or_default().push(d);
+                        }
+                    }
+                }
+                for (n, ds) in also {
+                    for scope in self.env.iter_mut().rev() {
+                        if let Some(val) = scope.get_mut(&n) {
+                            let is_var = val.get("k").and_then(|k| k.as_str()) == Some("var");
+                            let target = if is_var { val.get_mut("v") } else { Some(val) };
+                            if let Some(t) = target {
+                                if t.get("k").and_then(|k| k.as_str()) == Some("payload") {
+                                    t["also"] = Value::Array(ds.clone());
+                                }
+                            }
+                            break;
+                        }
+                    }
+                }
             }
             _ => {}
         }
